@@ -6,103 +6,10 @@ import (
 	"reflect"
 	"testing"
 
-	"github.com/iancoleman/orderedmap"
-
-	"github.com/iotaledger/hive.go/ierrors"
 	"github.com/iotaledger/hive.go/serializer/v2/serix"
+	"verifharness/internal/inlgrid"
 	"verifharness/internal/stats"
 )
-
-// Member types for TestInlinedMemberMatrix. Every one of them has a map form that is a JSON object (or is refused as an
-// inlined member), and their keys are chosen so that some collide with the sibling field `foo` of the holder.
-type (
-	imPlain struct {
-		A uint8  `serix:"a"`
-		B uint16 `serix:"b"`
-	}
-	imAllOptional struct {
-		Q *imPlain `serix:"q,optional"`
-		R uint8    `serix:"r,omitempty"`
-	}
-	imTyped struct {
-		TA uint8 `serix:"ta"`
-	}
-	imFoo struct {
-		Foo uint8 `serix:"foo"`
-	}
-	ImBase struct {
-		V uint8 `serix:"v"`
-	}
-	imEmb struct {
-		ImBase `serix:""`
-	}
-	imEmbKeyed struct {
-		ImBase `serix:"base"`
-	}
-	imNestFoo struct {
-		In imFoo `serix:",inlined"`
-	}
-	imIface interface{ imIface() }
-	imImplA struct {
-		Foo uint8 `serix:"foo"`
-	}
-	imImplB struct {
-		Bar uint8 `serix:"bar"`
-	}
-	imNestIface struct {
-		I imIface `serix:",inlined"`
-	}
-	imNestIfaceOpt struct {
-		I imIface `serix:",inlined,optional"`
-	}
-	imImplC struct {
-		Radius uint8 `serix:"radius"`
-		Foo    uint8 `serix:"foo,omitempty"`
-	}
-	imNestCodec struct {
-		Level uint8   `serix:"level"`
-		Note  imCodec `serix:",inlined"`
-	}
-	imArr   [4]byte
-	imBlob  []byte
-	imCodec struct {
-		Foo uint8 `serix:""`
-	}
-)
-
-func (imImplA) imIface() {}
-func (imImplB) imIface() {}
-func (imImplC) imIface() {}
-
-func (m imCodec) EncodeJSON() (any, error) {
-	o := orderedmap.New()
-	o.Set("codecfoo", m.Foo)
-
-	return o, nil
-}
-
-func (m *imCodec) DecodeJSON(v any) error {
-	mm, ok := v.(map[string]any)
-	if !ok {
-		return ierrors.New("not a map")
-	}
-	f, ok := mm["codecfoo"].(float64)
-	if !ok {
-		return ierrors.New("no entry codecfoo")
-	}
-	m.Foo = uint8(f)
-
-	return nil
-}
-
-type imMember struct {
-	name string
-	typ  reflect.Type
-	// values of the member: index 0 is the zero value of the type
-	values []any
-}
-
-func ptrTo[T any](v T) *T { return &v }
 
 // imEqual compares two holders; a nil and an empty byte slice are the same value (neither form distinguishes them).
 func imEqual(a, b reflect.Value) bool {
@@ -117,37 +24,6 @@ func imEqual(a, b reflect.Value) bool {
 	return reflect.DeepEqual(a.Interface(), b.Interface())
 }
 
-func imMembers() []imMember {
-	ifaceT := reflect.TypeOf((*imIface)(nil)).Elem()
-	plain := imPlain{A: 7, B: 300}
-	return []imMember{
-		{"struct", reflect.TypeOf(imPlain{}), []any{imPlain{}, plain, imPlain{A: 1}}},
-		{"ptr_struct", reflect.TypeOf(&imPlain{}), []any{(*imPlain)(nil), &plain, &imPlain{}}},
-		{"ptrptr_struct", reflect.TypeOf(ptrTo(&imPlain{})), []any{(**imPlain)(nil), ptrTo(&plain), ptrTo(&imPlain{})}},
-		{"all_optional_struct", reflect.TypeOf(imAllOptional{}), []any{imAllOptional{}, imAllOptional{Q: &plain}, imAllOptional{R: 3}}},
-		{"ptr_all_optional_struct", reflect.TypeOf(&imAllOptional{}), []any{(*imAllOptional)(nil), &imAllOptional{}, &imAllOptional{Q: &plain}, &imAllOptional{R: 3}}},
-		{"typed_struct", reflect.TypeOf(imTyped{}), []any{imTyped{}, imTyped{TA: 9}}},
-		{"ptr_typed_struct", reflect.TypeOf(&imTyped{}), []any{(*imTyped)(nil), &imTyped{}, &imTyped{TA: 9}}},
-		{"foo_struct", reflect.TypeOf(imFoo{}), []any{imFoo{}, imFoo{Foo: 42}}},
-		{"ptr_foo_struct", reflect.TypeOf(&imFoo{}), []any{(*imFoo)(nil), &imFoo{Foo: 42}}},
-		{"embedding_struct", reflect.TypeOf(imEmb{}), []any{imEmb{}, imEmb{ImBase{V: 5}}}},
-		{"ptr_embedding_struct", reflect.TypeOf(&imEmb{}), []any{(*imEmb)(nil), &imEmb{ImBase{V: 5}}, &imEmb{}}},
-		{"ptr_embedding_keyed_struct", reflect.TypeOf(&imEmbKeyed{}), []any{(*imEmbKeyed)(nil), &imEmbKeyed{ImBase{V: 5}}}},
-		{"nested_inlined_foo", reflect.TypeOf(imNestFoo{}), []any{imNestFoo{}, imNestFoo{In: imFoo{Foo: 42}}}},
-		{"ptr_nested_inlined_foo", reflect.TypeOf(&imNestFoo{}), []any{(*imNestFoo)(nil), &imNestFoo{In: imFoo{Foo: 42}}}},
-		{"iface", ifaceT, []any{nil, imImplA{Foo: 42}, imImplB{Bar: 8}, imImplC{Radius: 2}, imImplC{Radius: 2, Foo: 3}}},
-		{"nested_inlined_json_codec", reflect.TypeOf(imNestCodec{}), []any{imNestCodec{}, imNestCodec{Level: 1, Note: imCodec{Foo: 9}}}},
-		{"ptr_nested_inlined_json_codec", reflect.TypeOf(&imNestCodec{}), []any{(*imNestCodec)(nil), &imNestCodec{Level: 1, Note: imCodec{Foo: 9}}, &imNestCodec{}}},
-		{"nested_inlined_iface", reflect.TypeOf(imNestIface{}), []any{imNestIface{}, imNestIface{I: imImplA{Foo: 42}}, imNestIface{I: imImplB{Bar: 8}}}},
-		{"ptr_nested_inlined_optional_iface", reflect.TypeOf(&imNestIfaceOpt{}), []any{(*imNestIfaceOpt)(nil), &imNestIfaceOpt{}, &imNestIfaceOpt{I: imImplA{Foo: 42}}, &imNestIfaceOpt{I: imImplB{Bar: 8}}}},
-		{"typed_byte_array", reflect.TypeOf(imArr{}), []any{imArr{}, imArr{1, 2, 3, 4}}},
-		{"ptr_typed_byte_array", reflect.TypeOf(&imArr{}), []any{(*imArr)(nil), &imArr{1, 2, 3, 4}, &imArr{}}},
-		{"typed_byte_slice", reflect.TypeOf(imBlob{}), []any{imBlob(nil), imBlob{1, 2}}},
-		{"json_codec", reflect.TypeOf(imCodec{}), []any{imCodec{}, imCodec{Foo: 9}}},
-		{"ptr_json_codec", reflect.TypeOf(&imCodec{}), []any{(*imCodec)(nil), &imCodec{Foo: 9}, &imCodec{}}},
-	}
-}
-
 // TestInlinedMemberMatrix enumerates holder structs {X uint8 "x"; M <member> ",inlined[,optional|,omitempty]";
 // Foo uint8 "foo,omitempty"} over the member types above, the three tag variants, the holder with and without a type
 // code of its own, every listed value of the member and the sibling Foo zero (left out) or not. The generated shapes
@@ -156,17 +32,17 @@ func TestInlinedMemberMatrix(t *testing.T) {
 	const check = "inlined_member_matrix"
 	stats.Rule(check, "exhaustive grid: 24 member types (struct, pointer, pointer to pointer, struct whose members can all be left out, struct with a type code, struct with a key that collides with a sibling, embedding structs, struct that inlines a struct / an interface in turn, interface, typed byte array / slice, type with a JSON codec of its own; by value and through pointers) x tag {inlined; inlined,optional; inlined,omitempty} x holder with/without a type code x every listed member value (zero/nil, set, set-but-empty) x sibling `foo,omitempty` zero or 1 x validation on/off. Oracle: if Encode accepts the value, Decode reads everything back to an equal value; if JSONEncode accepts it, JSONDecode succeeds and yields an equal value (a type that serix refuses as a whole, an encoder that refuses the value: counted, fine). Distinct by grid cell; non-trivial = JSONEncode accepted the value")
 	ctx := context.Background()
-	ifaceT := reflect.TypeOf((*imIface)(nil)).Elem()
+	ifaceT := inlgrid.IfaceType
 	cells := 0
-	for _, mem := range imMembers() {
+	for _, mem := range inlgrid.Members() {
 		for _, tag := range []string{",inlined", ",inlined,optional", ",inlined,omitempty"} {
 			for _, typedHolder := range []bool{false, true} {
 				holderT := reflect.StructOf([]reflect.StructField{
 					{Name: "X", Type: reflect.TypeOf(uint8(0)), Tag: `serix:"x"`},
-					{Name: "M", Type: mem.typ, Tag: reflect.StructTag(`serix:"` + tag + `"`)},
+					{Name: "M", Type: mem.Typ, Tag: reflect.StructTag(`serix:"` + tag + `"`)},
 					{Name: "Foo", Type: reflect.TypeOf(uint8(0)), Tag: `serix:"foo,omitempty"`},
 				})
-				api := imAPI(t)
+				api := inlgrid.NewAPI()
 				must := func(err error) {
 					if err != nil {
 						t.Fatalf("registration: %v", err)
@@ -176,7 +52,7 @@ func TestInlinedMemberMatrix(t *testing.T) {
 					// (code 1 is also the code of an implementation of the interface)
 					must(api.RegisterTypeSettings(reflect.New(holderT).Elem().Interface(), serix.TypeSettings{}.WithObjectType(uint8(1))))
 				}
-				for vi, mv := range mem.values {
+				for vi, mv := range mem.Values {
 					for _, foo := range []uint8{0, 1} {
 						for _, validate := range []bool{false, true} {
 							cells++
@@ -188,11 +64,11 @@ func TestInlinedMemberMatrix(t *testing.T) {
 							in.Elem().Field(0).SetUint(200)
 							if mv != nil {
 								in.Elem().Field(1).Set(reflect.ValueOf(mv))
-							} else if mem.typ != ifaceT {
-								t.Fatalf("nil value for %s", mem.name)
+							} else if mem.Typ != ifaceT {
+								t.Fatalf("nil value for %s", mem.Name)
 							}
 							in.Elem().Field(2).SetUint(uint64(foo))
-							cell := fmt.Sprintf("member=%s tag=%q typedHolder=%v value#%d=%+v foo=%d validation=%v", mem.name, tag, typedHolder, vi, mv, foo, validate)
+							cell := fmt.Sprintf("member=%s tag=%q typedHolder=%v value#%d=%+v foo=%d validation=%v", mem.Name, tag, typedHolder, vi, mv, foo, validate)
 							fail := func(format string, a ...any) {
 								msg := fmt.Sprintf(format, a...)
 								stats.Violation(check, map[string]any{"cell": cell, "problem": msg})
@@ -266,24 +142,6 @@ func TestInlinedMemberMatrix(t *testing.T) {
 	t.Logf("%d grid cells", cells)
 }
 
-func imAPI(t *testing.T) *serix.API {
-	api := serix.NewAPI()
-	must := func(err error) {
-		if err != nil {
-			t.Fatalf("registration: %v", err)
-		}
-	}
-	must(api.RegisterTypeSettings(imTyped{}, serix.TypeSettings{}.WithObjectType(uint8(9))))
-	must(api.RegisterTypeSettings(imArr{}, serix.TypeSettings{}.WithObjectType(uint8(4))))
-	must(api.RegisterTypeSettings(imBlob{}, serix.TypeSettings{}.WithObjectType(uint8(5)).WithLengthPrefixType(serix.LengthPrefixTypeAsByte)))
-	must(api.RegisterTypeSettings(imImplA{}, serix.TypeSettings{}.WithObjectType(uint8(1))))
-	must(api.RegisterTypeSettings(imImplB{}, serix.TypeSettings{}.WithObjectType(uint8(2))))
-	must(api.RegisterTypeSettings(imImplC{}, serix.TypeSettings{}.WithObjectType(uint8(3))))
-	must(api.RegisterInterfaceObjects((*imIface)(nil), imImplA{}, imImplB{}, imImplC{}))
-
-	return api
-}
-
 // TestInlinedMemberPairs: two inlined members side by side. Holder {X uint8 "x"; M1 <member> <tag>; M2 <member> <tag>}
 // over all ordered pairs of the member types of TestInlinedMemberMatrix, all nine tag combinations and all listed
 // values of both members. Two members can own the same keys (the same struct type twice, two interfaces, two objects
@@ -292,9 +150,9 @@ func TestInlinedMemberPairs(t *testing.T) {
 	const check = "inlined_member_pairs"
 	stats.Rule(check, "exhaustive grid: ordered pairs of the 24 member types of inlined_member_matrix x tag {inlined; inlined,optional; inlined,omitempty} for each of the two x every listed value of both members (validation off). Oracle as in inlined_member_matrix: what Encode accepts, Decode reads back completely and equal; what JSONEncode accepts, JSONDecode reads back equal; no panic. Distinct by grid cell; non-trivial = JSONEncode accepted the value")
 	ctx := context.Background()
-	api := imAPI(t)
+	api := inlgrid.NewAPI()
 	tags := []string{",inlined", ",inlined,optional", ",inlined,omitempty"}
-	members := imMembers()
+	members := inlgrid.Members()
 	cells := 0
 	for _, m1 := range members {
 		for _, m2 := range members {
@@ -302,11 +160,11 @@ func TestInlinedMemberPairs(t *testing.T) {
 				for _, tag2 := range tags {
 					holderT := reflect.StructOf([]reflect.StructField{
 						{Name: "X", Type: reflect.TypeOf(uint8(0)), Tag: `serix:"x"`},
-						{Name: "M1", Type: m1.typ, Tag: reflect.StructTag(`serix:"` + tag1 + `"`)},
-						{Name: "M2", Type: m2.typ, Tag: reflect.StructTag(`serix:"` + tag2 + `"`)},
+						{Name: "M1", Type: m1.Typ, Tag: reflect.StructTag(`serix:"` + tag1 + `"`)},
+						{Name: "M2", Type: m2.Typ, Tag: reflect.StructTag(`serix:"` + tag2 + `"`)},
 					})
-					for v1i, v1 := range m1.values {
-						for v2i, v2 := range m2.values {
+					for v1i, v1 := range m1.Values {
+						for v2i, v2 := range m2.Values {
 							cells++
 							in := reflect.New(holderT)
 							in.Elem().Field(0).SetUint(200)
@@ -316,7 +174,7 @@ func TestInlinedMemberPairs(t *testing.T) {
 							if v2 != nil {
 								in.Elem().Field(2).Set(reflect.ValueOf(v2))
 							}
-							cell := fmt.Sprintf("M1=%s%q value#%d=%+v M2=%s%q value#%d=%+v", m1.name, tag1, v1i, v1, m2.name, tag2, v2i, v2)
+							cell := fmt.Sprintf("M1=%s%q value#%d=%+v M2=%s%q value#%d=%+v", m1.Name, tag1, v1i, v1, m2.Name, tag2, v2i, v2)
 							fail := func(format string, a ...any) {
 								msg := fmt.Sprintf(format, a...)
 								stats.Violation(check, map[string]any{"cell": cell, "problem": msg})
